@@ -12,6 +12,7 @@ import (
 	"math/rand"
 	"strings"
 	"sync"
+	"sync/atomic"
 
 	"github.com/Shopify/sarama"
 
@@ -58,12 +59,21 @@ func runOne(seed int64, sc conslog.E2EScenario, panics []bool) work {
 	for i, p := range panics {
 		sc.Interceptors = append(sc.Interceptors, &conslog.CountingInterceptor{Index: i, Panics: p})
 	}
+	before := atomic.LoadInt32(&conslog.EscapedPanics)
 	res := conslog.RunE2E(seed, sc)
+	escaped := atomic.LoadInt32(&conslog.EscapedPanics) > before
 	js := caseJSON{E2ECaseJSON: conslog.E2EJSON(sc, res), Panics: panics, Expired: res.Stalled, Steered: res.Steered, Calls: map[string][]int{}}
 	var mon *cf.Monitor
 	// delivery itself must be exact (C03 / C11 monitor on the stream with the marks removed)
 	if m := conslog.E2EMonitor(sc, res); m != nil {
 		mon = &cf.Monitor{Signature: "consumer-interceptor:" + m.Signature, What: m.What}
+		anyPanics := false
+		for _, p := range panics {
+			anyPanics = anyPanics || p
+		}
+		if escaped && anyPanics {
+			mon = &cf.Monitor{Signature: "consumer-interceptor:panic-escaped", What: "a panicking interceptor took a consumer goroutine down: " + m.What}
+		}
 	}
 	stalled := map[int64]bool{}
 	for _, o := range res.Stalled {
